@@ -13,6 +13,8 @@ def main(tier, seed):
     n = 1200 if tier == "quick" else 20000
     design_mc.run(rep, "C17", seed, n=3, nf=3, ng=2)
     design_trace.run(rep, "C17", n, seed, {"nmax": 14, "resps": ["y", "f", "o", ""], "salt": 17})
+    # rows = retained observations when rows are dropped (missing values, non-unique / float / unsorted indexes)
+    design_trace.run(rep, "C17", n // 4, seed, {"nmax": 14, "resps": ["y", "f"], "salt": 19, "na_rate": 0.12, "na_cols": ("x", "z", "f", "g", "y")})
     # long formulas: ten or more terms (two-digit positions in the slices)
     design_trace.run(rep, "C17", n // 6, seed, {"nmax": 16, "resps": ["y", ""], "salt": 18, "max_terms": 12, "hier": 0.3})
     c17_objects.run(rep, 300 if tier == "quick" else 5000, seed)
